@@ -175,6 +175,19 @@ def check(case: t.Any, ctx: Ctx) -> None:
         return
     ctx.evaluated(3)
     ctx.label('checked')
+    if res is None and len(case) > 3 and case[3] is not None:
+        # the same type object again with another value, then the first value once more:
+        # the answer must depend on nothing but T and the value (no state carried between calls)
+        for (i, v_again) in enumerate((case[3], v)):
+            try:
+                r2 = roundtrip_problem(nd, v_again)
+            except _Skip:
+                continue
+            ctx.evaluated(3)
+            if r2 is not None:
+                res = (r2[0], r2[1] + f"  [value {i + 2} given to the same type object after {short(v, 80)}]")
+                v = v_again
+                break
     if res is not None:
         def failing(n: tg.Node, x: t.Any) -> bool:
             if any(isinstance(m, cg.ClsNode) and not m.output_readable() for m in n.walk()):
@@ -205,7 +218,8 @@ def cases(draw, specs: st.SearchStrategy[t.Any]) -> t.Any:
     spec = draw(specs)
     nd = tg.node(spec)
     v = plainify(draw(nd.valid()))
-    return [spec, v, 'valid']
+    v2 = plainify(draw(nd.valid())) if draw(st.booleans()) else None
+    return [spec, v, 'valid', v2]
 
 
 def suites(tier: str) -> t.List[Suite]:
@@ -213,4 +227,5 @@ def suites(tier: str) -> t.List[Suite]:
     leaves = 8 if big else 4
     return [
         Suite('roundtrip', check, strategy=lambda: cases(gen.all_type_specs(leaves)), examples=8000 if big else 600, budget_s=480 if big else 40, render=gen.render_case),
+        Suite('overlap-unions', check, strategy=lambda: cases(gen.overlap_union_specs()), examples=3000 if big else 250, budget_s=240 if big else 25, render=gen.render_case),
     ]
